@@ -97,6 +97,10 @@ func randomBytes(r gen.R, n int) []byte {
 }
 
 func c04(c *Ctx) {
+	if c.Mode == "loopback" {
+		c04Loopback(c)
+		return
+	}
 	c.Res.Rule = "(a) byte strings of length 0..2048 (random, all-0x00/0xff, valid messages with 1-3 mutated bytes, truncated/extended, every length 0..130) into every decoding entry point for all registered message types; (b) every operation through the in-memory driver with replies of arbitrary length and content, every non-nil result rendered with String(), fmt and JSON (also field by field); (c) the listener with arbitrary buffers; (d) hostile arguments: nil maps/slices/IPs, short IPs, zero and extreme time.Time, out-of-range enums, NewHHmm with any ints; a Go panic anywhere (recovered in the caller, or the worker process dying with a trace through the library) is the violation; distinct = distinct (entry point, input class, length class) keys + inputs"
 	r := c.Rng("main")
 	var caseNo int64
